@@ -9,7 +9,9 @@ open Gen.Code
 /-- **the setter of `Variable.value` as translated from the source (AST) = `Op.setter`**: `np.clip(value, minimum,
     maximum)` when `lock_range`, the value itself otherwise -/
 theorem code_valueSetter (c : CascadeCfg Rat) (v : X Rat) :
-    ∃ σ, Variable_set_value.run c v {} = .ok σ ∧ σ.self__value = setter c v := ⟨_, rfl, rfl⟩
+    ∃ σ, Variable_set_value.run c v {} = .ok σ ∧ σ.self__value = setter c v := by
+  unfold Variable_set_value.run setter
+  cases c.lockRange <;> exact ⟨_, rfl, rfl⟩
 
 /-- the clipping setter of an input variable (`Op.Engine.InVar.setValue`) is the same function -/
 theorem inVar_setValue_eq (iv : Engine.InVar Rat) (v : X Rat) :
